@@ -29,6 +29,7 @@ import (
 	"context"
 	"errors"
 	"fmt"
+	"math"
 	"math/rand"
 	"runtime"
 	"sort"
@@ -50,7 +51,24 @@ var timedBase = time.Now()
 
 func nowUs() int64 { return time.Since(timedBase).Microseconds() }
 
-func us(n int) time.Duration { return time.Duration(n) * time.Microsecond }
+// us: n microseconds; saturates at the largest Duration ("for ever": time.Duration(math.MaxInt64), the idiomatic way to say it)
+func us(n int) time.Duration {
+	if n >= timedForever {
+		return time.Duration(math.MaxInt64)
+	}
+	return time.Duration(n) * time.Microsecond
+}
+
+// timedForever: the d= of a case that means time.Duration(math.MaxInt64), in microseconds
+const timedForever = math.MaxInt64 / 1000
+
+// waitD: the configured duration as far as the harness's own waiting is concerned (a "for ever" window is not waited for)
+func waitD(d int) int {
+	if d > 1000000 {
+		return 1000000
+	}
+	return d
+}
 
 // ---------- recorder ----------
 
@@ -428,7 +446,7 @@ func runTimed(c *Case) string {
 	if hasSource {
 		select {
 		case <-src.done:
-		case <-time.After(timedGuard + us(sumInts(cfg.gaps)+len(cfg.gaps)*cfg.d)):
+		case <-time.After(timedGuard + us(sumInts(cfg.gaps)+len(cfg.gaps)*waitD(cfg.d))):
 		}
 	}
 	<-cutDone
@@ -468,7 +486,10 @@ func runTimed(c *Case) string {
 		tick.Stop()
 	}
 	// 3. watch for late activity: everything that could still arrive arrives within the largest duration
-	settle := 2*cfg.d + 3000
+	settle := 2*waitD(cfg.d) + 3000
+	if cfg.d >= timedForever {
+		settle = 3000
+	}
 	if cfg.op == "IntervalWithInitial" && cfg.d2 > cfg.d {
 		settle = 2*cfg.d2 + 3000
 	}
@@ -671,6 +692,9 @@ func genTimed(tier string, seed int64, only string) []*Case {
 		add("ThrottleTime", "d", ds, "gaps", "0,0,0,0,0", "term", "C", "slow", "-", "cut", "-")
 		add("ThrottleTime", "d", ds, "gaps", "0,"+itoa(d+300)+","+itoa(d+300), "term", "C", "slow", "-", "cut", "-")
 		add("ThrottleTime", "d", ds, "gaps", "0,"+itoa(d/2)+","+itoa(d/2)+","+itoa(d/2), "term", "E", "slow", "-", "cut", "-")
+		// a window of time.Duration(math.MaxInt64) ("for ever"): one value passes, however the source is paced
+		add("ThrottleTime", "d", itoa(timedForever), "gaps", "0,0,0", "term", "C", "slow", "-", "cut", "-")
+		add("ThrottleTime", "d", itoa(timedForever), "gaps", "0,"+itoa(d)+","+itoa(d)+","+itoa(d), "term", "C", "slow", "-", "cut", "-")
 		// SampleTime: bursts inside one period (latest wins), nothing between two ticks
 		add("SampleTime", "d", ds, "gaps", "0,0,0,"+itoa(2*d)+",0,0", "term", "C", "slow", "-", "cut", "-")
 		add("SampleTime", "d", ds, "gaps", itoa(d/2)+","+itoa(d/2)+","+itoa(d/2)+","+itoa(d/2), "term", "-", "slow", "-", "cut", "cancel:"+itoa(3*d))
